@@ -194,6 +194,9 @@ PROPS = {
              "bound": "two flat names with the fixed label layout 1+2 content octets and the root label; all content octets",
              "what": "Name: name_eq and == on the compiled code (flat-slice fast path) equal label-wise equality up to ASCII case -- "
                      "the compiled counterpart of unit nameorder's name_eq contract, independent of how the comparison is written"},
+            {"group": "g0", "name": "c04_name_eq_implies_hash_eq_fixed_layout_bounded", "kind": "bounded", "tier": "quick", "timeout": 900,
+             "bound": "two flat names with the fixed label layout 1+2 content octets and the root label; all content octets",
+             "what": "Name: names that compare equal write the same octets to any Hasher (Hash for Name walks the labels)"},
             {"group": "g0", "name": "c04_record_eq_implies_hash_eq", "kind": "complete", "tier": "quick",
              "what": "Record<u8, A>: == <=> (class, data) equal, for all classes, TTL pairs and addresses; equal records write the same "
                      "bytes to any Hasher (the generic Hash impl does not look into the owner type)"},
@@ -215,7 +218,7 @@ PROPS = {
                        "iterator adapters outside Verus): label order, equality and hash coherence and the RFC 4034 label order, "
                        "complete up to the 63-octet limit in the thorough tier; Record Eq/Hash coherence over all classes, TTLs "
                        "and A data.",
-        "not_covered": "Hash for names (for-loop over a label iterator; CBMC does not finish on names), the relative-name versions "
+        "not_covered": "Hash for names beyond the bounded harness (for-loop over a label iterator, outside Verus), the relative-name versions "
                        "(ToRelativeName), the iterators themselves (iter_labels/as_flat_slice of Name, ParsedName, Chain are assumed "
                        "to enumerate labels() -- ParsedName's iterator is under contract in C01's unit nameparse), CharStr, canonical "
                        "ordering of record data per type versus canonical wire form, Record::canonical_cmp.",
